@@ -8,6 +8,10 @@
 fn __setup_noop() {}
 
 #[cfg(kani)]
+mod common;
+#[cfg(kani)]
+mod c01;
+#[cfg(kani)]
 mod c19;
 #[cfg(kani)]
 mod c20;
